@@ -29,12 +29,17 @@ def pairs(run, n):
             yield rc.shuffled(run.rng, fam), call
 
 
-def what(obs, log, sp):
-    return "outcome depends on the enumeration order of a layer: " + rc.describe(obs, log, sp)
-
-
 def correspondence(run):
-    rc.correspond(run, pairs(run, run.n(1200, 12000)), what, "C06")
+    def judge(family, call, obs, log, sp):
+        """a disagreement with the order-free model is a C06 violation exactly when some other enumeration
+        order of the same family gives another outcome; otherwise it is reported as a model mismatch"""
+        seen = rc.order_outcomes(run.rng, family, call)
+        if len(seen) > 1:
+            return ("violation", "outcome depends on the enumeration order of a layer: " + rc.describe(obs, log, sp),
+                    {"outcomes_by_order": list(seen.values()), "required": "one outcome for every enumeration order"})
+        return ("mismatch", "Model/Resolution.v and runner.py disagree on a call, identically for every enumeration order "
+                            "(not an order dependence; see C05): " + rc.describe(obs, log, sp), {})
+    rc.correspond(run, pairs(run, run.n(1200, 12000)), None, "C06", judge=judge)
 
 
 def check_orders(run, fam, call):
